@@ -70,6 +70,7 @@ def run(ctx):
     repo = ctx.repo
     _no_hash_keyed_tables(ctx, repo)
     _reader_builds_with_cls(ctx, repo)
+    _repr_covers_equality(ctx, repo)
     _bytes_identity_rule(ctx, repo)
     _key_string_rule(ctx, repo)
     shared.module_state_rule(ctx, 'C11.j', ['cirq-core/cirq/protocols/', 'cirq-core/cirq/value/', 'cirq-core/cirq/study/', 'cirq-core/cirq/_compat.py'], floor=3)
@@ -733,3 +734,54 @@ def _reader_builds_with_cls(ctx, repo):
         ctx.ob('C11.n', f'{ci.qual}._from_json_dict_:constructs', bad is None, '' if bad is None else
                f'`return {ast.unparse(bad)[:70]}` hands back what a method of the decoded part `{ast.unparse(bad.func.value)[:30]}` returns instead of constructing {ci.name}: nested or empty '
                'wrappers are flattened / unwrapped, so the value read differs from the value written', ci.mod.rel, bad.lineno if bad is not None else fn.lineno)
+
+
+# class -> reason the repr legitimately does not read the listed equality fields
+REPR_EXEMPT = {
+    'cirq.ops.common_channels.AsymmetricDepolarizingChannel': '_num_qubits is the length of the keys of the printed error_probabilities',
+    'cirq.ops.common_gate_families.ParallelGateFamily': 'the listed GateFamily options cannot be set through the constructor of this subclass; they keep their defaults',
+    'cirq.ops.common_gates.Rx': 'printed as rads, from which exponent is derived; global shift and dimension are fixed by the class',
+    'cirq.ops.common_gates.Ry': 'printed as rads, from which exponent is derived; the global shift is fixed by the class',
+    'cirq.ops.common_gates.Rz': 'printed as rads, from which exponent is derived; global shift and dimension are fixed by the class',
+    'cirq.ops.control_values.SumOfProducts': 'equality is computed from the expanded conjunctions, which are printed',
+    'cirq.ops.gateset.Gateset': 'printed through the public `gates` accessor of the same collection',
+    'cirq.ops.parity_gates.MSGate': 'the global shift is fixed by the class',
+    'cirq.ops.phased_iswap_gate.PhasedISwapPowGate': '_iswap is built from the printed exponent and global shift',
+    'cirq.sim.clifford.clifford_simulator.CliffordState': 'simulator state object: its repr is the CH form',
+    'cirq.sim.clifford.stabilizer_state_ch_form.StabilizerStateChForm': 'simulator state object: an informal dump, the arrays are restored through JSON only',
+    'cirq.transformers.target_gatesets.cz_gateset.CZTargetGateset': 'printed through the stored sequence additional_gates (constructor form)',
+    'cirq.transformers.target_gatesets.sqrt_iswap_gateset.SqrtIswapTargetGateset': 'printed through the stored sequence additional_gates (constructor form)',
+    'cirq_google.ops.analog_detune_gates.AnalogDetuneCouplerOnly': 'informal description, not an expression (pinned by the package\'s own tests)',
+    'cirq_google.ops.analog_detune_gates.AnalogDetuneQubit': 'informal description, not an expression (pinned by the package\'s own tests)',
+    'cirq_google.ops.leakage_iswap.LeakageISWAP': 'a constant gate: the constructor takes no arguments',
+    'cirq_google.ops.sycamore_gate.SycamoreGate': 'a constant gate: the constructor takes no arguments',
+    'cirq_google.ops.willow_gate.WillowGate': 'a constant gate: the constructor takes no arguments',
+    'cirq_google.transformers.target_gatesets.google_cz_gateset.GoogleCZTargetGateset': 'printed through the stored sequence additional_gates (constructor form)',
+    'cirq_google.transformers.target_gatesets.sycamore_gateset.SycamoreTargetGateset': 'the Gateset fields are derived from the printed constructor options',
+    'cirq_pasqal.pasqal_gateset.PasqalGateset': 'the Gateset fields are derived from the printed constructor options',
+}
+
+
+def _repr_covers_equality(ctx, repo):
+    """C11.o - a hand-written __repr__ of a serializable value shows every field its equality compares."""
+    from .. import fields as F
+    ctx.decided.append('C11.o every JSON-serializable class with its own __repr__ and value equality reads, in __repr__, each field that _value_equality_values_ reads (or hands self to a '
+                       'generic formatter); derived / fixed fields are tabled')
+    ctx.rule('C11.o', 'repr shows what equality compares: for every class (outside testing / contrib / interop) that defines __repr__, has _value_equality_values_ and _json_dict_, the fields '
+             'read by _value_equality_values_ are a subset of the fields read by __repr__ (helpers and properties followed), unless __repr__ passes self to a formatter or the class is '
+             'tabled - eval(repr(x)) == x fails for a field that is compared but not printed', floor=80, style='COH')
+    for ci in sorted(repo.classes.values(), key=lambda c: c.qual):
+        if '.testing.' in ci.qual or '.contrib.' in ci.qual or '.interop.' in ci.qual:
+            continue
+        rp = ci.methods.get('__repr__')
+        ev = repo.find_method(ci, '_value_equality_values_')
+        if rp is None or ev is None or repo.find_method(ci, '_json_dict_') is None:
+            continue
+        rr = {F.norm_field(repo, ci, x) for x in F.self_reads(repo, ci, rp, depth=2)}
+        er = {F.norm_field(repo, ci, x) for x in F.self_reads(repo, ci, ev[1], depth=2)}
+        whole = any(isinstance(c, ast.Call) and any(isinstance(a, ast.Name) and a.id == 'self' for a in c.args) for c in ast.walk(rp))
+        miss = sorted(er - rr)
+        ex = REPR_EXEMPT.get(ci.qual)
+        ok = not miss or whole or ex is not None
+        ctx.ob('C11.o', f'{ci.qual}.__repr__:covers-equality', ok, ('tabled: ' + ex) if (ex and miss and not whole) else '' if ok else
+               f'__repr__ never reads {miss}, which equality compares: two unequal values print the same, and eval(repr(x)) is not equal to x', ci.mod.rel, rp.lineno)
